@@ -5,6 +5,13 @@
 // against a reference model written here. The real code is only reached through
 // the public API: annotate.Change, osm.HistoryDatasource (or an own
 // implementation of osm.HistoryDatasourcer), osm.Diff.
+//
+// Families: single, multi-order, multi-status, same-id (small alphabets, full
+// products) and the boundary families wide-version, wide-id, content, options,
+// long, sequence (values and situations outside those alphabets: integer widths,
+// the 40 id bits of osm.FeatureID, timestamps against the version order, bare
+// elements, option lists nobody passes, long histories and big changes, a second
+// change against the same datasource object while the first diff is retained).
 package main
 
 import (
@@ -16,6 +23,7 @@ import (
 	"sort"
 	"strings"
 	"sync/atomic"
+	"time"
 
 	"github.com/paulmach/osm"
 	"github.com/paulmach/osm/annotate"
@@ -62,6 +70,78 @@ type Case struct {
 	Modify      []Elem `json:"modify,omitempty"`
 	Delete      []Elem `json:"delete,omitempty"`
 	Hist        []Hist `json:"hist,omitempty"`
+	// Opts, when not empty, is the exact option list handed to annotate.Change
+	// (see optionFor); Ignore then states what the list amounts to: the value of
+	// the LAST IgnoreMissingChildren in it, off when there is none.
+	Opts []string `json:"opts,omitempty"`
+	// Content: "" = marked elements with zero timestamps; "times" = timestamps and
+	// Committed set, running AGAINST the version order (see tsFor); "bare" = the
+	// elements of the change and the invisible history versions carry nothing but
+	// id, version, changeset (what deleted elements look like in real data).
+	Content string `json:"content,omitempty"`
+	// Then: a second, different change annotated against the SAME datasource object
+	// right after this one, while this one's diff is retained (Then.Hist == Hist).
+	Then *Case `json:"then,omitempty"`
+}
+
+// content bits handed to the element builders
+const (
+	ctTimes = 1
+	ctBare  = 2
+)
+
+// ctElem / ctHist: the content of an element of the change / of history version u.
+func (c *Case) ctElem() int {
+	switch c.Content {
+	case "times":
+		return ctTimes
+	case "bare":
+		return ctBare
+	}
+	return 0
+}
+
+func (c *Case) ctHist(u int) int {
+	switch c.Content {
+	case "times":
+		return ctTimes
+	case "bare":
+		if !histVisible(u) {
+			return ctBare
+		}
+	}
+	return 0
+}
+
+// tsTable: the timestamp of version u in content "times". It DEcreases with the
+// version (a predecessor picked by time instead of by version number is a
+// different element) and walks through the boundary classes of time: after 2262
+// (UnixNano overflows), sub-second in another zone, either side of
+// osm.CommitInfoStart, unix 0, before 1970, the zero time.
+var tsTable = []time.Time{
+	time.Date(2300, 1, 1, 0, 0, 0, 0, time.UTC),
+	time.Date(2030, 6, 1, 12, 0, 0, 500000000, time.FixedZone("", 5*3600)),
+	osm.CommitInfoStart.Add(time.Second),
+	osm.CommitInfoStart.Add(-time.Second),
+	time.Date(2005, 1, 1, 0, 0, 0, 0, time.UTC),
+	time.Unix(0, 0).UTC(),
+	time.Unix(-1, 0).UTC(),
+}
+
+func tsFor(version int) time.Time {
+	if version >= 0 && version < len(tsTable) {
+		return tsTable[version]
+	}
+	return time.Time{}
+}
+
+// committedFor: odd versions carry a Committed time, even ones none.
+func committedFor(version int) *time.Time {
+	if version%2 == 0 {
+		return nil
+	}
+	t := tsFor(version).Add(time.Minute)
+	return &t
 }
 
 func (c *Case) block(a int) []Elem {
@@ -161,35 +241,61 @@ type Expect struct {
 
 func tagsFor(mark int) osm.Tags { return osm.Tags{{Key: "mark", Value: fmt.Sprint(mark)}} }
 
-func buildNode(id int64, version int, visible bool, mark int) *osm.Node {
-	return &osm.Node{ID: osm.NodeID(id), Version: version, Visible: visible,
+// The builders: ct == 0 is a fully marked element with zero timestamp; ctTimes
+// adds Timestamp/Committed as a function of the version; ctBare leaves nothing
+// but id, version, visible and the changeset id (= mark).
+func buildNode(id int64, version int, visible bool, mark int, ct int) *osm.Node {
+	if ct&ctBare != 0 {
+		return &osm.Node{ID: osm.NodeID(id), Version: version, Visible: visible, ChangesetID: osm.ChangesetID(mark)}
+	}
+	n := &osm.Node{ID: osm.NodeID(id), Version: version, Visible: visible,
 		ChangesetID: osm.ChangesetID(mark), Lat: float64(mark) / 100, Lon: -float64(mark) / 100,
 		UserID: osm.UserID(mark + 1), User: fmt.Sprintf("u%d", mark), Tags: tagsFor(mark)}
+	if ct&ctTimes != 0 {
+		n.Timestamp, n.Committed = tsFor(version), committedFor(version)
+	}
+	return n
 }
 
-func buildWay(id int64, version int, visible bool, mark int) *osm.Way {
-	return &osm.Way{ID: osm.WayID(id), Version: version, Visible: visible,
+func buildWay(id int64, version int, visible bool, mark int, ct int) *osm.Way {
+	if ct&ctBare != 0 {
+		return &osm.Way{ID: osm.WayID(id), Version: version, Visible: visible, ChangesetID: osm.ChangesetID(mark)}
+	}
+	w := &osm.Way{ID: osm.WayID(id), Version: version, Visible: visible,
 		ChangesetID: osm.ChangesetID(mark), UserID: osm.UserID(mark + 1), User: fmt.Sprintf("u%d", mark),
 		Tags:  tagsFor(mark),
 		Nodes: osm.WayNodes{{ID: osm.NodeID(mark)}, {ID: osm.NodeID(mark + 1)}}}
+	if ct&ctTimes != 0 {
+		w.Timestamp, w.Committed = tsFor(version), committedFor(version)
+		w.Updates = osm.Updates{{Index: 1, Version: version + 1, Timestamp: tsFor(version + 1), ChangesetID: osm.ChangesetID(mark + 2)}}
+	}
+	return w
 }
 
-func buildRelation(id int64, version int, visible bool, mark int) *osm.Relation {
-	return &osm.Relation{ID: osm.RelationID(id), Version: version, Visible: visible,
+func buildRelation(id int64, version int, visible bool, mark int, ct int) *osm.Relation {
+	if ct&ctBare != 0 {
+		return &osm.Relation{ID: osm.RelationID(id), Version: version, Visible: visible, ChangesetID: osm.ChangesetID(mark)}
+	}
+	r := &osm.Relation{ID: osm.RelationID(id), Version: version, Visible: visible,
 		ChangesetID: osm.ChangesetID(mark), UserID: osm.UserID(mark + 1), User: fmt.Sprintf("u%d", mark),
 		Tags:    tagsFor(mark),
 		Members: osm.Members{{Type: osm.TypeNode, Ref: int64(mark), Role: "m"}}}
+	if ct&ctTimes != 0 {
+		r.Timestamp, r.Committed = tsFor(version), committedFor(version)
+		r.Updates = osm.Updates{{Index: 0, Version: version + 1, Timestamp: tsFor(version + 1), ChangesetID: osm.ChangesetID(mark + 2)}}
+	}
+	return r
 }
 
 // expected value of an element built by the functions above
-func valueOf(kind int, id int64, version int, visible bool, mark int) ES {
+func valueOf(kind int, id int64, version int, visible bool, mark int, ct int) ES {
 	switch kind {
 	case 0:
-		return nodeES(buildNode(id, version, visible, mark))
+		return nodeES(buildNode(id, version, visible, mark, ct))
 	case 1:
-		return wayES(buildWay(id, version, visible, mark))
+		return wayES(buildWay(id, version, visible, mark, ct))
 	}
-	return relationES(buildRelation(id, version, visible, mark))
+	return relationES(buildRelation(id, version, visible, mark, ct))
 }
 
 func tagStr(t osm.Tags) string {
@@ -201,13 +307,37 @@ func tagStr(t osm.Tags) string {
 	return strings.Join(s, ",")
 }
 
+// timeStr keeps the instant to the nanosecond AND the zone; the zero time (the
+// bulk of the enumeration) takes the short path.
+func timeStr(t time.Time, committed *time.Time) string {
+	if committed == nil && t.IsZero() && t.Location() == time.UTC {
+		return "0/-"
+	}
+	c := "-"
+	if committed != nil {
+		c = committed.Format(time.RFC3339Nano)
+	}
+	return t.Format(time.RFC3339Nano) + "/" + c
+}
+
+func updStr(us osm.Updates) string {
+	if len(us) == 0 {
+		return "0"
+	}
+	s := make([]string, 0, len(us))
+	for _, u := range us {
+		s = append(s, fmt.Sprintf("%d.%d.%s.%d.%v.%v.%v", u.Index, u.Version, u.Timestamp.Format(time.RFC3339Nano), u.ChangesetID, u.Lat, u.Lon, u.Reverse))
+	}
+	return strings.Join(s, ";")
+}
+
 func nodeES(n *osm.Node) ES {
 	if n == nil {
 		return ES{Malformed: "nil node"}
 	}
 	return ES{Present: true, Kind: 0, ID: int64(n.ID), Version: n.Version, Visible: n.Visible,
-		Rest: fmt.Sprintf("cs=%d uid=%d user=%s ts=%d lat=%v lon=%v tags=%s", n.ChangesetID, n.UserID, n.User,
-			n.Timestamp.Unix(), n.Lat, n.Lon, tagStr(n.Tags))}
+		Rest: fmt.Sprintf("cs=%d uid=%d user=%s ts=%s lat=%v lon=%v tags=%s", n.ChangesetID, n.UserID, n.User,
+			timeStr(n.Timestamp, n.Committed), n.Lat, n.Lon, tagStr(n.Tags))}
 }
 
 func wayES(w *osm.Way) ES {
@@ -219,8 +349,8 @@ func wayES(w *osm.Way) ES {
 		ns = append(ns, fmt.Sprintf("%d.%d.%d.%v.%v", wn.ID, wn.Version, wn.ChangesetID, wn.Lat, wn.Lon))
 	}
 	return ES{Present: true, Kind: 1, ID: int64(w.ID), Version: w.Version, Visible: w.Visible,
-		Rest: fmt.Sprintf("cs=%d uid=%d user=%s ts=%d tags=%s nodes=%s upd=%d", w.ChangesetID, w.UserID, w.User,
-			w.Timestamp.Unix(), tagStr(w.Tags), strings.Join(ns, ";"), len(w.Updates))}
+		Rest: fmt.Sprintf("cs=%d uid=%d user=%s ts=%s tags=%s nodes=%s upd=%s", w.ChangesetID, w.UserID, w.User,
+			timeStr(w.Timestamp, w.Committed), tagStr(w.Tags), strings.Join(ns, ";"), updStr(w.Updates))}
 }
 
 func relationES(r *osm.Relation) ES {
@@ -232,8 +362,8 @@ func relationES(r *osm.Relation) ES {
 		ms = append(ms, fmt.Sprintf("%s.%d.%s.%d.%d", m.Type, m.Ref, m.Role, m.Version, m.ChangesetID))
 	}
 	return ES{Present: true, Kind: 2, ID: int64(r.ID), Version: r.Version, Visible: r.Visible,
-		Rest: fmt.Sprintf("cs=%d uid=%d user=%s ts=%d tags=%s members=%s upd=%d", r.ChangesetID, r.UserID, r.User,
-			r.Timestamp.Unix(), tagStr(r.Tags), strings.Join(ms, ";"), len(r.Updates))}
+		Rest: fmt.Sprintf("cs=%d uid=%d user=%s ts=%s tags=%s members=%s upd=%s", r.ChangesetID, r.UserID, r.User,
+			timeStr(r.Timestamp, r.Committed), tagStr(r.Tags), strings.Join(ms, ";"), updStr(r.Updates))}
 }
 
 // containerES turns an *osm.OSM that must hold exactly one element into its value.
@@ -256,7 +386,7 @@ func containerES(o *osm.OSM) ES {
 	return relationES(o.Relations[0])
 }
 
-func buildBlock(es []Elem, emptyBlocks bool) *osm.OSM {
+func buildBlock(es []Elem, emptyBlocks bool, ct int) *osm.OSM {
 	if len(es) == 0 {
 		if emptyBlocks {
 			return &osm.OSM{}
@@ -267,11 +397,11 @@ func buildBlock(es []Elem, emptyBlocks bool) *osm.OSM {
 	for _, e := range es {
 		switch e.Kind {
 		case 0:
-			o.Nodes = append(o.Nodes, buildNode(e.ID, e.Version, e.Visible, e.Mark))
+			o.Nodes = append(o.Nodes, buildNode(e.ID, e.Version, e.Visible, e.Mark, ct))
 		case 1:
-			o.Ways = append(o.Ways, buildWay(e.ID, e.Version, e.Visible, e.Mark))
+			o.Ways = append(o.Ways, buildWay(e.ID, e.Version, e.Visible, e.Mark, ct))
 		default:
-			o.Relations = append(o.Relations, buildRelation(e.ID, e.Version, e.Visible, e.Mark))
+			o.Relations = append(o.Relations, buildRelation(e.ID, e.Version, e.Visible, e.Mark, ct))
 		}
 	}
 	return o
@@ -294,29 +424,35 @@ type histEntry struct {
 	relations osm.Relations
 }
 
-type customDS struct {
-	m map[osm.FeatureID]*histEntry
+// dsKey: the exact (kind, id) - an osm.FeatureID keeps only 40 bits of the id
+type dsKey struct {
+	kind int
+	id   int64
 }
 
-func (d *customDS) get(id osm.FeatureID) *histEntry {
-	if h := d.m[id]; h != nil {
+type customDS struct {
+	m map[dsKey]*histEntry
+}
+
+func (d *customDS) get(kind int, id int64) *histEntry {
+	if h := d.m[dsKey{kind, id}]; h != nil {
 		return h
 	}
-	return &histEntry{err: &lookupErr{what: fmt.Sprintf("custom: %v not found", id), nf: true}}
+	return &histEntry{err: &lookupErr{what: fmt.Sprintf("custom: %s %d not found", kinds[kind], id), nf: true}}
 }
 
 func (d *customDS) NodeHistory(_ context.Context, id osm.NodeID) (osm.Nodes, error) {
-	h := d.get(id.FeatureID())
+	h := d.get(0, int64(id))
 	return h.nodes, h.err
 }
 
 func (d *customDS) WayHistory(_ context.Context, id osm.WayID) (osm.Ways, error) {
-	h := d.get(id.FeatureID())
+	h := d.get(1, int64(id))
 	return h.ways, h.err
 }
 
 func (d *customDS) RelationHistory(_ context.Context, id osm.RelationID) (osm.Relations, error) {
-	h := d.get(id.FeatureID())
+	h := d.get(2, int64(id))
 	return h.relations, h.err
 }
 
@@ -358,7 +494,7 @@ func buildDS(c *Case) (osm.HistoryDatasourcer, error) {
 				}
 				l := make(osm.Nodes, 0, len(h.Versions))
 				for _, u := range h.Versions {
-					l = append(l, buildNode(h.ID, u, histVisible(u), histMark(u)))
+					l = append(l, buildNode(h.ID, u, histVisible(u), histMark(u), c.ctHist(u)))
 				}
 				ds.Nodes[osm.NodeID(h.ID)] = l
 			case 1:
@@ -367,7 +503,7 @@ func buildDS(c *Case) (osm.HistoryDatasourcer, error) {
 				}
 				l := make(osm.Ways, 0, len(h.Versions))
 				for _, u := range h.Versions {
-					l = append(l, buildWay(h.ID, u, histVisible(u), histMark(u)))
+					l = append(l, buildWay(h.ID, u, histVisible(u), histMark(u), c.ctHist(u)))
 				}
 				ds.Ways[osm.WayID(h.ID)] = l
 			default:
@@ -376,7 +512,7 @@ func buildDS(c *Case) (osm.HistoryDatasourcer, error) {
 				}
 				l := make(osm.Relations, 0, len(h.Versions))
 				for _, u := range h.Versions {
-					l = append(l, buildRelation(h.ID, u, histVisible(u), histMark(u)))
+					l = append(l, buildRelation(h.ID, u, histVisible(u), histMark(u), c.ctHist(u)))
 				}
 				ds.Relations[osm.RelationID(h.ID)] = l
 			}
@@ -386,7 +522,7 @@ func buildDS(c *Case) (osm.HistoryDatasourcer, error) {
 	if c.DS != "custom" {
 		return nil, fmt.Errorf("unknown datasource %q", c.DS)
 	}
-	ds := &customDS{m: map[osm.FeatureID]*histEntry{}}
+	ds := &customDS{m: map[dsKey]*histEntry{}}
 	for _, h := range c.Hist {
 		e := &histEntry{}
 		switch h.State {
@@ -400,17 +536,17 @@ func buildDS(c *Case) (osm.HistoryDatasourcer, error) {
 			for _, u := range h.Versions {
 				switch h.Kind {
 				case 0:
-					e.nodes = append(e.nodes, buildNode(h.ID, u, histVisible(u), histMark(u)))
+					e.nodes = append(e.nodes, buildNode(h.ID, u, histVisible(u), histMark(u), c.ctHist(u)))
 				case 1:
-					e.ways = append(e.ways, buildWay(h.ID, u, histVisible(u), histMark(u)))
+					e.ways = append(e.ways, buildWay(h.ID, u, histVisible(u), histMark(u), c.ctHist(u)))
 				default:
-					e.relations = append(e.relations, buildRelation(h.ID, u, histVisible(u), histMark(u)))
+					e.relations = append(e.relations, buildRelation(h.ID, u, histVisible(u), histMark(u), c.ctHist(u)))
 				}
 			}
 		default:
 			return nil, fmt.Errorf("unknown history state %q", h.State)
 		}
-		ds.m[featureID(h.Kind, h.ID)] = e
+		ds.m[dsKey{h.Kind, h.ID}] = e
 	}
 	return ds, nil
 }
@@ -419,21 +555,14 @@ func buildDS(c *Case) (osm.HistoryDatasourcer, error) {
 // Reference model (uses only the Case description)
 
 // predecessor: the greatest version below v that occurs in versions, by value.
-// Formulated as a downward walk over version numbers, not as a scan of the list.
+// Formulated on a sorted copy (descending: the first entry below v), not as the
+// running-maximum scan of the list in /repo; version numbers may be as large as
+// an int can hold, so no walk over the numbers themselves.
 func predecessor(versions []int, v int) (int, bool) {
-	if len(versions) == 0 {
-		return 0, false
-	}
-	lo := versions[0]
-	present := map[int]bool{}
-	for _, u := range versions {
-		present[u] = true
-		if u < lo {
-			lo = u
-		}
-	}
-	for u := v - 1; u >= lo; u-- {
-		if present[u] {
+	sorted := append([]int{}, versions...)
+	sort.Sort(sort.Reverse(sort.IntSlice(sorted)))
+	for _, u := range sorted {
+		if u < v {
 			return u, true
 		}
 	}
@@ -444,7 +573,7 @@ func model(c *Case) Expect {
 	var x Expect
 	for _, e := range c.Create {
 		x.Groups[e.Kind] = append(x.Groups[e.Kind],
-			Act{Type: "create", Single: valueOf(e.Kind, e.ID, e.Version, true, e.Mark)})
+			Act{Type: "create", Single: valueOf(e.Kind, e.ID, e.Version, true, e.Mark, c.ctElem())})
 	}
 	for a := 1; a <= 2; a++ {
 		for _, e := range c.block(a) {
@@ -465,15 +594,15 @@ func model(c *Case) Expect {
 			if !ok {
 				if c.Ignore {
 					x.Groups[g] = append(x.Groups[g],
-						Act{Type: "create", Single: valueOf(e.Kind, e.ID, e.Version, true, e.Mark)})
+						Act{Type: "create", Single: valueOf(e.Kind, e.ID, e.Version, true, e.Mark, c.ctElem())})
 				} else {
 					x.Missing = append(x.Missing, featureID(e.Kind, e.ID))
 				}
 				continue
 			}
 			x.Groups[g] = append(x.Groups[g], Act{Type: acts[a],
-				Old: valueOf(e.Kind, e.ID, u, histVisible(u), histMark(u)),
-				New: valueOf(e.Kind, e.ID, e.Version, a == 1, e.Mark)})
+				Old: valueOf(e.Kind, e.ID, u, histVisible(u), histMark(u), c.ctHist(u)),
+				New: valueOf(e.Kind, e.ID, e.Version, a == 1, e.Mark, c.ctElem())})
 		}
 	}
 	return x
@@ -492,52 +621,118 @@ type Got struct {
 	// (same change, same datasource) gives the same answer
 	InputModified bool
 	Second        string
+	// Retained: what became of this call's diff while the next call (Case.Then) ran
+	Retained string
 }
 
-func runReal(c *Case) (g Got, harness error) {
-	ds, err := buildDS(c)
-	if err != nil {
-		return g, err
+// optionFor turns one entry of Case.Opts into the library's option. The options
+// other than IgnoreMissingChildren belong to the other annotate functions; the
+// property gives them no say in annotate.Change.
+func optionFor(name string) (annotate.Option, error) {
+	switch name {
+	case "imc-true":
+		return annotate.IgnoreMissingChildren(true), nil
+	case "imc-false":
+		return annotate.IgnoreMissingChildren(false), nil
+	case "inc-true":
+		return annotate.IgnoreInconsistency(true), nil
+	case "inc-false":
+		return annotate.IgnoreInconsistency(false), nil
+	case "threshold-0":
+		return annotate.Threshold(0), nil
+	case "threshold-1h":
+		return annotate.Threshold(time.Hour), nil
+	case "filter-none":
+		return annotate.ChildFilter(func(osm.FeatureID) bool { return false }), nil
+	case "filter-all":
+		return annotate.ChildFilter(func(osm.FeatureID) bool { return true }), nil
 	}
-	change := &osm.Change{
-		Create: buildBlock(c.Create, c.EmptyBlocks),
-		Modify: buildBlock(c.Modify, c.EmptyBlocks),
-		Delete: buildBlock(c.Delete, c.EmptyBlocks),
-	}
+	return nil, fmt.Errorf("unknown option %q", name)
+}
+
+func buildOpts(c *Case) ([]annotate.Option, error) {
 	var opts []annotate.Option
+	if len(c.Opts) > 0 {
+		// what the list amounts to, folded here from the names alone
+		eff := false
+		for _, name := range c.Opts {
+			o, err := optionFor(name)
+			if err != nil {
+				return nil, err
+			}
+			opts = append(opts, o)
+			if strings.HasPrefix(name, "imc-") {
+				eff = name == "imc-true"
+			}
+		}
+		if eff != c.Ignore {
+			return nil, fmt.Errorf("case says ignore=%v, its option list %v amounts to %v", c.Ignore, c.Opts, eff)
+		}
+		return opts, nil
+	}
 	if c.Ignore {
 		opts = append(opts, annotate.IgnoreMissingChildren(true))
 	} else if c.ExplicitOff {
 		opts = append(opts, annotate.IgnoreMissingChildren(false))
 	}
-	call := func(g *Got) {
-		defer func() {
-			if p := recover(); p != nil {
-				g.Panic = fmt.Sprint(p)
-			}
-		}()
-		diff, err := annotate.Change(context.Background(), change, ds, opts...)
-		g.Err = err
-		if err != nil {
-			return
-		}
-		if diff == nil {
-			g.Nil = true
-			return
-		}
-		if len(diff.Changesets) != 0 {
-			g.Other = fmt.Sprintf("%d changesets", len(diff.Changesets))
-		}
-		for _, a := range diff.Actions {
-			g.Acts = append(g.Acts, Act{Type: string(a.Type),
-				Single: containerES(a.OSM), Old: containerES(a.Old), New: containerES(a.New)})
-		}
+	return opts, nil
+}
+
+func buildChange(c *Case) *osm.Change {
+	return &osm.Change{
+		Create: buildBlock(c.Create, c.EmptyBlocks, c.ctElem()),
+		Modify: buildBlock(c.Modify, c.EmptyBlocks, c.ctElem()),
+		Delete: buildBlock(c.Delete, c.EmptyBlocks, c.ctElem()),
 	}
+}
+
+func actsOf(diff *osm.Diff) []Act {
+	var as []Act
+	for _, a := range diff.Actions {
+		as = append(as, Act{Type: string(a.Type),
+			Single: containerES(a.OSM), Old: containerES(a.Old), New: containerES(a.New)})
+	}
+	return as
+}
+
+// invoke calls annotate.Change once and describes the outcome.
+func invoke(change *osm.Change, ds osm.HistoryDatasourcer, opts []annotate.Option) (g Got, diff *osm.Diff) {
+	defer func() {
+		if p := recover(); p != nil {
+			g.Panic = fmt.Sprint(p)
+		}
+	}()
+	diff, err := annotate.Change(context.Background(), change, ds, opts...)
+	g.Err = err
+	if err != nil {
+		return g, nil
+	}
+	if diff == nil {
+		g.Nil = true
+		return g, nil
+	}
+	if len(diff.Changesets) != 0 {
+		g.Other = fmt.Sprintf("%d changesets", len(diff.Changesets))
+	}
+	g.Acts = actsOf(diff)
+	return g, diff
+}
+
+// runReal runs the case; then is the outcome of c.Then (nil without one).
+func runReal(c *Case) (g Got, then *Got, harness error) {
+	ds, err := buildDS(c)
+	if err != nil {
+		return g, nil, err
+	}
+	opts, err := buildOpts(c)
+	if err != nil {
+		return g, nil, err
+	}
+	change := buildChange(c)
 	before := kit.DeepCopy(change)
-	call(&g)
+	g, diff := invoke(change, ds, opts)
 	g.InputModified = !reflect.DeepEqual(before, change)
-	var g2 Got
-	call(&g2)
+	g2, _ := invoke(change, ds, opts)
 	switch {
 	case g2.Panic != g.Panic:
 		g.Second = fmt.Sprintf("panic %q vs %q", g2.Panic, g.Panic)
@@ -546,7 +741,22 @@ func runReal(c *Case) (g Got, harness error) {
 	case g2.Nil != g.Nil || !reflect.DeepEqual(g2.Acts, g.Acts):
 		g.Second = fmt.Sprintf("%d actions vs %d, or different ones", len(g2.Acts), len(g.Acts))
 	}
-	return g, nil
+	if c.Then == nil {
+		return g, nil, nil
+	}
+	// a different change (fresh elements: nothing of it is shared with the first
+	// change) against the same datasource object, the first diff still in hand
+	topts, err := buildOpts(c.Then)
+	if err != nil {
+		return g, nil, err
+	}
+	t, _ := invoke(buildChange(c.Then), ds, topts)
+	if diff != nil && t.Panic == "" {
+		if now := actsOf(diff); !reflect.DeepEqual(now, g.Acts) {
+			g.Retained = fmt.Sprintf("was %v, is %v after the next call", g.Acts, now)
+		}
+	}
+	return g, &t, nil
 }
 
 // ---------------------------------------------------------------------------
@@ -637,14 +847,42 @@ func checkCase(r *kit.Run, c *Case) {
 		}
 	}
 	classify(r, c)
-	want := model(c)
-	got, herr := runReal(c)
+	got, then, herr := runReal(c)
 	if herr != nil {
 		kit.Fatalf("cannot build case %s: %v", c.Fingerprint(), herr)
 	}
+	judge(r, c, c, got)
+	if c.Then != nil {
+		add(r, "sequence_second_change", 1)
+		if got.Retained != "" {
+			r.Violation("retained-diff-changed/"+shapeOf(c), "the diff of the first annotate.Change "+got.Retained+"; case "+c.Fingerprint(), c)
+		}
+		classify(r, c.Then)
+		judge(r, c.Then, c, *then)
+	}
+}
+
+// idRepresentable: an osm.FeatureID keeps 40 bits of the id; for ids outside
+// [0, 2^40) the id inside a NoVisibleChildError cannot be the element's and is
+// not judged (the error's type still is).
+func idRepresentable(c *Case) bool {
+	for a := 0; a < 3; a++ {
+		for _, e := range c.block(a) {
+			if e.ID < 0 || e.ID >= 1<<40 {
+				return false
+			}
+		}
+	}
+	return true
+}
+
+// judge compares what one annotate.Change returned for c with the reference
+// model; root is the case to replay (c itself, or the case c is the Then of).
+func judge(r *kit.Run, c, root *Case, got Got) {
+	want := model(c)
 	shape := shapeOf(c)
 	if got.Panic != "" {
-		r.Violation("panic/"+shape, fmt.Sprintf("annotate.Change panicked: %s; case %s", got.Panic, c.Fingerprint()), c)
+		r.Violation("panic/"+shape, fmt.Sprintf("annotate.Change panicked: %s; case %s", got.Panic, root.Fingerprint()), root)
 		return
 	}
 
@@ -657,7 +895,7 @@ func checkCase(r *kit.Run, c *Case) {
 				clause = "datasource-error-swallowed/"
 			}
 			r.Violation(clause+shape, fmt.Sprintf("no error returned (got %d actions %v); missing=%v failing=%v; case %s",
-				len(got.Acts), got.Acts, want.Missing, want.Failing, c.Fingerprint()), c)
+				len(got.Acts), got.Acts, want.Missing, want.Failing, root.Fingerprint()), root)
 			return
 		}
 		if want.Failing && (errors.Is(got.Err, errBoom) || errors.Is(got.Err, error(errBoomNF))) {
@@ -672,8 +910,12 @@ func checkCase(r *kit.Run, c *Case) {
 					return
 				}
 			}
+			if !idRepresentable(c) {
+				add(r, "outcome_error_id_not_judged", 1)
+				return
+			}
 			r.Violation("missing-error-wrong-id/"+shape, fmt.Sprintf("NoVisibleChildError names %v, elements without predecessor are %v; case %s",
-				nv.ID, want.Missing, c.Fingerprint()), c)
+				nv.ID, want.Missing, root.Fingerprint()), root)
 			return
 		}
 		clause := "missing-error-wrong-type/"
@@ -681,27 +923,27 @@ func checkCase(r *kit.Run, c *Case) {
 			clause = "datasource-error-not-passed-through/"
 		}
 		r.Violation(clause+shape, fmt.Sprintf("got error %T %q; missing=%v failing=%v; case %s",
-			got.Err, got.Err.Error(), want.Missing, want.Failing, c.Fingerprint()), c)
+			got.Err, got.Err.Error(), want.Missing, want.Failing, root.Fingerprint()), root)
 		return
 	}
 
 	// --- success outcomes
 	if got.Err != nil {
-		r.Violation("unexpected-error/"+shape, fmt.Sprintf("got error %T %q, expected a diff; case %s", got.Err, got.Err.Error(), c.Fingerprint()), c)
+		r.Violation("unexpected-error/"+shape, fmt.Sprintf("got error %T %q, expected a diff; case %s", got.Err, got.Err.Error(), root.Fingerprint()), root)
 		return
 	}
 	if got.Nil {
-		r.Violation("nil-diff/"+shape, "nil diff and nil error; case "+c.Fingerprint(), c)
+		r.Violation("nil-diff/"+shape, "nil diff and nil error; case "+root.Fingerprint(), root)
 		return
 	}
 	// (annotate.Change sets Visible on the elements of the change it is given, by
 	// design; the property does not promise an untouched input, so InputModified
 	// is recorded and not judged)
 	if got.Second != "" {
-		r.Violation("second-call-differs/"+shape, "a second annotate.Change with the same change and datasource: "+got.Second+"; case "+c.Fingerprint(), c)
+		r.Violation("second-call-differs/"+shape, "a second annotate.Change with the same change and datasource: "+got.Second+"; case "+root.Fingerprint(), root)
 	}
 	if got.Other != "" {
-		r.Violation("diff-extra-content/"+shape, got.Other+"; case "+c.Fingerprint(), c)
+		r.Violation("diff-extra-content/"+shape, got.Other+"; case "+root.Fingerprint(), root)
 		return
 	}
 	total := 0
@@ -710,7 +952,7 @@ func checkCase(r *kit.Run, c *Case) {
 	}
 	if len(got.Acts) != total {
 		r.Violation("action-count/"+shape, fmt.Sprintf("%d actions for %d changed elements: %v; case %s",
-			len(got.Acts), total, got.Acts, c.Fingerprint()), c)
+			len(got.Acts), total, got.Acts, root.Fingerprint()), root)
 		return
 	}
 	pos := 0
@@ -742,13 +984,13 @@ func checkCase(r *kit.Run, c *Case) {
 		}
 		if equalStrings(sortedStrings(all), sortedStrings(got.Acts)) {
 			r.Violation("action-order/"+shape, fmt.Sprintf("actions are not in create,modify,delete / node,way,relation order: got %v; case %s",
-				got.Acts, c.Fingerprint()), c)
+				got.Acts, root.Fingerprint()), root)
 			return
 		}
 		for i := range wg {
 			if wg[i] != gg[i] {
 				r.Violation(diagnose(wg[i], gg[i], gi)+"/ignore="+fmt.Sprint(c.Ignore),
-					fmt.Sprintf("action %d: got %v want %v; case %s", pos-len(wg)+i, gg[i], wg[i], c.Fingerprint()), c)
+					fmt.Sprintf("action %d: got %v want %v; case %s", pos-len(wg)+i, gg[i], wg[i], root.Fingerprint()), root)
 				return
 			}
 		}
@@ -772,6 +1014,7 @@ var ctrNames = []string{"outcome_error_expected", "outcome_error_passthrough", "
 	"outcome_create", "outcome_modify", "outcome_delete", "outcome_create_fallback",
 	"groups_in_input_order", "groups_permuted_within_kind",
 	"hist_served_absent", "hist_served_present", "hist_served_fail", "hist_served_fail-nf",
+	"sequence_second_change", "outcome_error_id_not_judged",
 	"hist_unsorted", "hist_with_same_or_later_version", "hist_gap_before_element_version", "hist_present_without_smaller_version"}
 
 func add(r *kit.Run, name string, n int64) {
@@ -805,6 +1048,21 @@ func (c *Case) sampleWorthy() bool {
 		}
 		return c.Create[0].Kind == 0 && c.Modify[0].Kind == 1 && c.Delete[0].Kind == 0 &&
 			c.Hist[0].State == "present" && len(c.Hist[0].Versions) == 4 && c.Hist[1].State == "absent" && c.Hist[2].State == "present" && len(c.Hist[2].Versions) == 2
+	case "wide-version":
+		v := c.Hist[0].Versions
+		return c.DS == "osm" && !c.Ignore && len(c.Modify) == 1 && c.Modify[0].Kind == 1 && c.Modify[0].Version == 1<<32 &&
+			len(v) == 3 && v[0] == 1<<32+1 && v[1] == 1 && v[2] == 1<<32-1
+	case "wide-id":
+		return c.DS == "osm" && c.Ignore && len(c.Delete) == 2 && c.Delete[0].Kind == 0 && c.Delete[1].ID == 7+1<<40 &&
+			len(c.Hist[0].Versions) == 4 && c.Hist[1].State == "absent"
+	case "content":
+		v := c.Hist[0].Versions
+		return !c.Ignore && len(c.Delete) == 1 && c.Delete[0].Kind == 2 && c.Delete[0].Version == 3 &&
+			len(v) == 3 && v[0] == 4 && v[1] == 0 && v[2] == 2
+	case "options":
+		return c.DS == "custom" && len(c.Opts) == 5 && len(c.Modify) == 1 && c.Modify[0].Kind == 0 && c.Hist[0].State == "absent"
+	case "sequence":
+		return c.DS == "custom" && len(c.Modify) == 2 && len(c.Delete) == 1 && c.Then != nil && len(c.Then.Delete) == 2 && c.Then.Ignore
 	}
 	return false
 }
@@ -1009,7 +1267,9 @@ func multiOrderUnits(maxPerSlot int) []unit {
 // predecessor.
 func sameIDUnits() []unit {
 	var units []unit
-	pairs := [][2]int{{2, 4}, {4, 2}, {4, 5}, {5, 4}, {3, 7}, {7, 3}}
+	// {1,4} / {4,1}: version 1 has no predecessor in the history below - one of the two
+	// occurrences is an error (or, ignoring, a create), the other a plain modify/delete
+	pairs := [][2]int{{2, 4}, {4, 2}, {4, 5}, {5, 4}, {3, 7}, {7, 3}, {1, 4}, {4, 1}}
 	for kind := 0; kind < 3; kind++ {
 		for a := 1; a <= 2; a++ {
 			for _, p := range pairs {
@@ -1117,6 +1377,391 @@ func multiStatusUnits() []unit {
 	return units
 }
 
+// ---------------------------------------------------------------------------
+// Boundary families: values and situations outside the small alphabets above.
+
+func setBlock(c *Case, a int, es ...Elem) {
+	switch a {
+	case 0:
+		c.Create = append(c.Create, es...)
+	case 1:
+		c.Modify = append(c.Modify, es...)
+	default:
+		c.Delete = append(c.Delete, es...)
+	}
+}
+
+const maxInt = int(^uint(0) >> 1)
+
+// family "wide-version": version numbers around the widths at which an integer
+// encoding changes. For every edge b: history = every ordered subset (size bound)
+// of {1, b-1, b, b+1}, element version from the same values.
+func wideVersionUnits(quick bool) []unit {
+	edges := []int{128, 256, 32768, 65536, 1 << 31, 1 << 32, 1 << 53, maxInt}
+	maxLen := 3
+	if !quick {
+		edges = append(edges, 2, 1<<16+1, 1<<24, 1<<40, 1<<62)
+		maxLen = 4
+	}
+	var units []unit
+	for _, b := range edges {
+		local := []int{1, b - 1, b}
+		if b < maxInt {
+			local = append(local, b+1)
+		}
+		ev := append([]int{}, local...)
+		if !quick && b < maxInt-1 {
+			ev = append(ev, b+2)
+		}
+		for _, h := range orderedSubsets(local, maxLen) {
+			h := h
+			units = append(units, func(emit func(*Case)) {
+				for _, dsName := range []string{"osm", "custom"} {
+					for kind := 0; kind < 3; kind++ {
+						for a := 0; a < 3; a++ {
+							if a == 0 && len(h) != len(local) && len(h) != 0 {
+								continue // a created element never looks at the history: two histories are enough
+							}
+							for _, v := range ev {
+								for _, ign := range []bool{false, true} {
+									c := &Case{Family: "wide-version", DS: dsName, Ignore: ign}
+									setBlock(c, a, Elem{Kind: kind, ID: 7, Version: v, Visible: a == 2, Mark: 5000 + a})
+									c.Hist = []Hist{{Kind: kind, ID: 7, State: "present", Versions: h}}
+									emit(c)
+								}
+							}
+						}
+					}
+				}
+			})
+		}
+	}
+	return units
+}
+
+// family "wide-id": element ids at 0, negative (editor placeholders), around 2^31,
+// 2^32, the 40 ref bits of osm.FeatureID, 2^53, the ends of int64 - alone, and two
+// elements of one block whose ids agree in the low 32 / low 40 bits, each with a
+// history of its own (taking one id for the other gives another predecessor or none).
+func wideIDUnits() []unit {
+	ids := []int64{0, 1, -1, -7, 1<<31 - 1, 1 << 31, 1 << 32, 1<<32 + 7, 1<<40 - 1, 1 << 40, 1<<40 + 7, 1 << 47, 1<<53 + 1, 1<<63 - 1, -1 << 63}
+	pairs := [][2]int64{{7, 7 + 1<<32}, {7, 7 + 1<<40}, {0, 1 << 40}, {1, -1}, {7, 7 - 1<<63}, {1<<40 - 1, -1}, {5, 5 + 1<<56}}
+	statuses := []string{"prev", "absent", "nosmaller", "empty"}
+	histFor := func(kind int, id int64, st string, alt bool) Hist {
+		switch st {
+		case "prev":
+			if alt {
+				return Hist{Kind: kind, ID: id, State: "present", Versions: []int{6, 4, 1}} // predecessor of 3 is 1
+			}
+			return Hist{Kind: kind, ID: id, State: "present", Versions: []int{5, 1, 3, 2}} // predecessor of 3 is 2
+		case "nosmaller":
+			return Hist{Kind: kind, ID: id, State: "present", Versions: []int{4, 3}}
+		case "empty":
+			return Hist{Kind: kind, ID: id, State: "present"}
+		}
+		return Hist{Kind: kind, ID: id, State: "absent"}
+	}
+	var units []unit
+	for _, id := range ids {
+		id := id
+		units = append(units, func(emit func(*Case)) {
+			for _, dsName := range []string{"osm", "custom"} {
+				for kind := 0; kind < 3; kind++ {
+					for a := 0; a < 3; a++ {
+						for _, st := range statuses {
+							for _, ign := range []bool{false, true} {
+								c := &Case{Family: "wide-id", DS: dsName, Ignore: ign}
+								setBlock(c, a, Elem{Kind: kind, ID: id, Version: 3, Visible: a == 2, Mark: 5100 + a})
+								c.Hist = []Hist{histFor(kind, id, st, false)}
+								// the same number as an id of the other two kinds has another history
+								c.Hist = append(c.Hist, histFor((kind+1)%3, id, "nosmaller", false), histFor((kind+2)%3, id, "prev", true))
+								emit(c)
+							}
+						}
+					}
+				}
+			}
+		})
+	}
+	for _, p := range pairs {
+		p := p
+		units = append(units, func(emit func(*Case)) {
+			for _, dsName := range []string{"osm", "custom"} {
+				for kind := 0; kind < 3; kind++ {
+					for a := 1; a <= 2; a++ {
+						for _, st0 := range statuses {
+							for _, st1 := range statuses {
+								for _, ign := range []bool{false, true} {
+									c := &Case{Family: "wide-id", DS: dsName, Ignore: ign}
+									setBlock(c, a, Elem{Kind: kind, ID: p[0], Version: 3, Visible: a == 2, Mark: 5200},
+										Elem{Kind: kind, ID: p[1], Version: 3, Visible: a == 2, Mark: 5201})
+									c.Hist = []Hist{histFor(kind, p[0], st0, false), histFor(kind, p[1], st1, true)}
+									emit(c)
+								}
+							}
+						}
+					}
+				}
+			}
+		})
+	}
+	return units
+}
+
+// family "content": what the elements carry. "times": timestamps and Committed
+// that run against the version order and sit on the boundary classes of time;
+// "bare": elements of the change and invisible history versions without tags,
+// nodes, members, user, position. One element; small version alphabet.
+func contentUnits(quick bool) []unit {
+	alphabet, maxLen, elemVersions := []int{0, 1, 2, 3, 4, 5}, 3, []int{0, 1, 2, 3, 4, 5}
+	if !quick {
+		alphabet, maxLen, elemVersions = []int{0, 1, 2, 3, 4, 5, 6, 7}, 4, []int{0, 1, 2, 3, 4, 5, 6, 7, 8}
+	}
+	type hs struct {
+		state string
+		vs    []int
+	}
+	hists := []hs{{"absent", nil}}
+	for _, s := range orderedSubsets(alphabet, maxLen) {
+		hists = append(hists, hs{"present", s})
+	}
+	var units []unit
+	for hi, h := range hists {
+		hi, h := hi, h
+		units = append(units, func(emit func(*Case)) {
+			for _, content := range []string{"times", "bare"} {
+				for kind := 0; kind < 3; kind++ {
+					for a := 0; a < 3; a++ {
+						if a == 0 && hi > 1 {
+							continue
+						}
+						for _, v := range elemVersions {
+							for _, ign := range []bool{false, true} {
+								c := &Case{Family: "content", DS: []string{"osm", "custom"}[(hi+v)%2], Ignore: ign, Content: content}
+								setBlock(c, a, Elem{Kind: kind, ID: 7, Version: v, Visible: a == 2, Mark: 5300 + v})
+								c.Hist = []Hist{{Kind: kind, ID: 7, State: h.state, Versions: h.vs}}
+								emit(c)
+							}
+						}
+					}
+				}
+			}
+		})
+	}
+	return units
+}
+
+// family "options": option lists nobody passes - IgnoreMissingChildren given
+// twice (the last one counts), and next to the options of the other annotate
+// functions, which have no say here.
+func optionUnits() []unit {
+	lists := []struct {
+		opts []string
+		eff  bool
+	}{
+		{[]string{"imc-true", "imc-false"}, false},
+		{[]string{"imc-false", "imc-true"}, true},
+		{[]string{"imc-true", "imc-true"}, true},
+		{[]string{"imc-false", "imc-false"}, false},
+		{[]string{"inc-true"}, false},
+		{[]string{"inc-false"}, false},
+		{[]string{"inc-true", "imc-true"}, true},
+		{[]string{"imc-true", "inc-true"}, true},
+		{[]string{"imc-true", "inc-false"}, true},
+		{[]string{"imc-false", "inc-true"}, false},
+		{[]string{"threshold-0"}, false},
+		{[]string{"threshold-1h", "imc-true"}, true},
+		{[]string{"filter-none"}, false},
+		{[]string{"filter-all"}, false},
+		{[]string{"filter-none", "imc-true"}, true},
+		{[]string{"inc-true", "threshold-0", "filter-all"}, false},
+		{[]string{"inc-true", "threshold-1h", "filter-none", "imc-true"}, true},
+		{[]string{"imc-true", "inc-true", "threshold-0", "filter-all", "imc-false"}, false},
+	}
+	statuses := []string{"prev", "absent", "nosmaller", "empty", "fail"}
+	var units []unit
+	for _, l := range lists {
+		l := l
+		units = append(units, func(emit func(*Case)) {
+			for _, dsName := range []string{"osm", "custom"} {
+				for kind := 0; kind < 3; kind++ {
+					for a := 0; a < 3; a++ {
+						for _, st := range statuses {
+							if st == "fail" && dsName == "osm" {
+								continue
+							}
+							c := &Case{Family: "options", DS: dsName, Ignore: l.eff, Opts: l.opts}
+							setBlock(c, a, Elem{Kind: kind, ID: 7, Version: 3, Visible: a == 2, Mark: 5400 + a})
+							switch st {
+							case "prev":
+								c.Hist = []Hist{{Kind: kind, ID: 7, State: "present", Versions: []int{5, 1, 3, 2}}}
+							case "nosmaller":
+								c.Hist = []Hist{{Kind: kind, ID: 7, State: "present", Versions: []int{4, 3}}}
+							case "empty":
+								c.Hist = []Hist{{Kind: kind, ID: 7, State: "present"}}
+							case "fail":
+								c.Hist = []Hist{{Kind: kind, ID: 7, State: "fail"}}
+							default:
+								c.Hist = []Hist{{Kind: kind, ID: 7, State: "absent"}}
+							}
+							// a second element with a predecessor, after the first
+							setBlock(c, 2, Elem{Kind: (kind + 1) % 3, ID: 8, Version: 6, Visible: true, Mark: 5410})
+							c.Hist = append(c.Hist, Hist{Kind: (kind + 1) % 3, ID: 8, State: "present", Versions: []int{7, 2, 5, 1, 4}})
+							emit(c)
+						}
+					}
+				}
+			}
+		})
+	}
+	return units
+}
+
+// family "long": histories of n versions (1..n, or every third number) in
+// ascending, descending and scattered order, element version at both ends, in the
+// middle and beyond; and changes with many elements per (block, kind) slot.
+func longUnits(quick bool) []unit {
+	lengths := []int{64, 300}
+	perSlot := []int{40}
+	if !quick {
+		lengths = []int{64, 257, 1000, 5000}
+		perSlot = []int{40, 1000}
+	}
+	var units []unit
+	for _, n := range lengths {
+		for step := 1; step <= 3; step += 2 {
+			for order := 0; order < 3; order++ {
+				n, step, order := n, step, order
+				units = append(units, func(emit func(*Case)) {
+					vs := make([]int, n)
+					for i := range vs {
+						j := i
+						switch order {
+						case 1:
+							j = n - 1 - i
+						case 2:
+							j = (i*7 + 3) % n // n is never a multiple of 7: a permutation
+						}
+						vs[i] = 1 + j*step
+					}
+					top := 1 + (n-1)*step
+					for _, v := range []int{0, 1, 2, 3, top / 2, top - 1, top, top + 1, top + 50} {
+						for kind := 0; kind < 3; kind++ {
+							for a := 1; a <= 2; a++ {
+								for _, ign := range []bool{false, true} {
+									c := &Case{Family: "long", DS: []string{"osm", "custom"}[(kind+a)%2], Ignore: ign}
+									setBlock(c, a, Elem{Kind: kind, ID: 7, Version: v, Visible: a == 2, Mark: 5500})
+									c.Hist = []Hist{{Kind: kind, ID: 7, State: "present", Versions: vs}}
+									emit(c)
+								}
+							}
+						}
+					}
+				})
+			}
+		}
+	}
+	for _, m := range perSlot {
+		m := m
+		units = append(units, func(emit func(*Case)) {
+			rot := [][]int{{7, 2, 5, 1, 4}, {4, 5, 7, 1, 2}, {5, 4, 2, 7, 1}, {1, 2, 4, 5, 7}}
+			for _, dsName := range []string{"osm", "custom"} {
+				for _, ign := range []bool{false, true} {
+					for _, missing := range []bool{false, true} {
+						c := &Case{Family: "long", DS: dsName, Ignore: ign}
+						for slot := 0; slot < 9; slot++ {
+							a, kind := slot/3, slot%3
+							for j := 0; j < m; j++ {
+								// ids shared between blocks and kinds, as in multi-order
+								setBlock(c, a, Elem{Kind: kind, ID: int64(1000 + j), Version: []int{1, 4, 6}[a], Visible: a == 2, Mark: 10000 + slot*m + j})
+							}
+						}
+						for kind := 0; kind < 3; kind++ {
+							for j := 0; j < m; j++ {
+								if missing && kind == 1 && j == m-1 {
+									continue // the last way has no history
+								}
+								c.Hist = append(c.Hist, Hist{Kind: kind, ID: int64(1000 + j), State: "present", Versions: rot[(j+kind)%len(rot)]})
+							}
+						}
+						emit(c)
+					}
+				}
+			}
+		})
+	}
+	return units
+}
+
+// family "sequence": every ordered pair (first, then) of a pool of changes run
+// back to back against ONE datasource object: `then` sees whatever the first call
+// left behind (after an error, after a fallback create, after the same ids), and
+// the first call's diff must still be what it was once `then` has run.
+func sequenceUnits() []unit {
+	type pc struct {
+		ign    bool
+		custom bool // needs the own datasource
+		build  func(c *Case)
+	}
+	el := func(kind int, id int64, v int, a int, mark int) Elem {
+		return Elem{Kind: kind, ID: id, Version: v, Visible: a == 2, Mark: mark}
+	}
+	pool := []pc{
+		{false, false, func(c *Case) { setBlock(c, 0, el(0, 30, 1, 0, 1)) }},
+		{false, false, func(c *Case) { setBlock(c, 1, el(1, 30, 4, 1, 2)) }},
+		{true, false, func(c *Case) { setBlock(c, 2, el(2, 30, 6, 2, 3), el(0, 30, 3, 2, 4)) }},
+		{false, false, func(c *Case) { setBlock(c, 1, el(0, 31, 3, 1, 5)) }},                                    // no history: error
+		{true, false, func(c *Case) { setBlock(c, 1, el(0, 31, 3, 1, 6)) }},                                     // no history: create
+		{true, false, func(c *Case) { setBlock(c, 1, el(1, 32, 3, 1, 7)); setBlock(c, 2, el(0, 30, 4, 2, 8)) }}, // no smaller version: create
+		{false, true, func(c *Case) { setBlock(c, 2, el(0, 33, 3, 2, 9)) }},                                     // failing history
+		{false, false, func(c *Case) {
+			setBlock(c, 0, el(1, 30, 1, 0, 10))
+			setBlock(c, 1, el(0, 30, 4, 1, 11), el(2, 30, 2, 1, 12))
+			setBlock(c, 2, el(1, 30, 6, 2, 13))
+		}},
+		{false, false, func(c *Case) {}}, // the empty change
+		{false, false, func(c *Case) { setBlock(c, 1, el(0, 30, 5, 1, 14), el(0, 30, 2, 1, 15)) }},
+		{false, false, func(c *Case) { setBlock(c, 2, el(0, 30, 4, 2, 16), el(1, 30, 4, 2, 17), el(2, 30, 4, 2, 18)) }},
+	}
+	mk := func(p pc, dsName string, fam string, markBase int) *Case {
+		c := &Case{Family: fam, DS: dsName, Ignore: p.ign}
+		p.build(c)
+		for a := 0; a < 3; a++ {
+			es := c.block(a)
+			for i := range es {
+				es[i].Mark += markBase
+			}
+		}
+		for kind := 0; kind < 3; kind++ {
+			c.Hist = append(c.Hist,
+				Hist{Kind: kind, ID: 30, State: "present", Versions: []int{7, 2, 5, 1, 4}},
+				Hist{Kind: kind, ID: 31, State: "absent"},
+				Hist{Kind: kind, ID: 32, State: "present", Versions: []int{4, 3}})
+			if dsName == "custom" {
+				c.Hist = append(c.Hist, Hist{Kind: kind, ID: 33, State: "fail"})
+			}
+		}
+		return c
+	}
+	var units []unit
+	for i := range pool {
+		i := i
+		units = append(units, func(emit func(*Case)) {
+			for _, dsName := range []string{"osm", "custom"} {
+				for j := range pool {
+					if dsName == "osm" && (pool[i].custom || pool[j].custom) {
+						continue
+					}
+					c := mk(pool[i], dsName, "sequence", 6000)
+					c.Then = mk(pool[j], dsName, "sequence-then", 6100)
+					emit(c)
+				}
+			}
+		})
+	}
+	return units
+}
+
 func main() {
 	kit.Main("C13", "exploration", func(r *kit.Run) {
 		r.Rule("family single: one changed element; kind{node,way,relation} x block{create,modify,delete} x element version x input Visible{false,true} x " +
@@ -1126,8 +1771,20 @@ func main() {
 			"family multi-order: all vectors of 0..2 (thorough 0..3) elements per (block,kind) slot x ignore x nil/empty blocks x datasource, ids shared between blocks, unsorted gapped histories. " +
 			"family multi-status: every non-empty subset of the 9 slots, each modified/deleted element independently {has predecessor, no history, no smaller version, failing history} x ignore x datasource. " +
 			"History elements carry the version in changeset id, user, tags, geometry/members and Visible (odd versions visible) so the picked version is observable. " +
+			"family same-id: one id twice (different versions) in one modify/delete block. " +
+			"BOUNDARY families - wide-version: for every edge b in {128,256,2^15,2^16,2^31,2^32,2^53,MaxInt} (thorough: + 2, 2^16+1, 2^24, 2^40, 2^62) history = every ordered subset (size<=3, thorough <=4) of {1,b-1,b,b+1}, element version from the same values (thorough + b+2) x kind x block x ignore x datasource. " +
+			"wide-id: element id in {0,1,-1,-7,2^31-1,2^31,2^32,2^32+7,2^40-1,2^40,2^40+7,2^47,2^53+1,MaxInt64,MinInt64} x kind x block x history{predecessor,absent,no smaller,empty} x ignore x datasource, the same number carrying another history as an id of the other kinds; " +
+			"pairs of ids in one block that agree in the low 32 / low 40 bits (the ref bits of osm.FeatureID) or differ in sign, each with its own history status (16 combinations). " +
+			"content: elements with Timestamp/Committed/Updates set, the times running AGAINST the version order through {year 2300, sub-second in +05:00, CommitInfoStart+-1s, 2005, unix 0, unix -1, zero time}, and bare elements (id, version, changeset only: no tags, nodes, members, user, position) x kind x block x element version 0..5 x history{absent, every ordered subset of 0..5 of size<=3} x ignore (thorough: 0..7/0..8, size<=4). " +
+			"options: 18 option lists (IgnoreMissingChildren twice in both orders, next to IgnoreInconsistency/Threshold/ChildFilter, those alone) x kind x block x history{predecessor,absent,no smaller,empty,failing} x datasource. " +
+			"long: histories of 64 and 300 versions (thorough 64,257,1000,5000), dense and every third number, ascending/descending/scattered x element version {0,1,2,3,middle,top-1,top,top+1,top+50}; changes with 40 (thorough also 1000) elements in each of the 9 slots, with and without one missing history. " +
+			"sequence: all ordered pairs of 11 changes (creates, predecessors, error, fallback creates, failing history, empty change, same id twice) annotated back to back against ONE datasource object; the first diff is read again after the second call. " +
 			"A case is non-trivial when it has >=2 elements or a modified/deleted element whose served history has >=2 versions; fingerprint = the full case description.")
-		r.Assume("Go runtime, reflect-free comparison code in this file; the reference model predecessor() walks version numbers downward from v-1 (independent of the list scan in /repo)")
+		r.Assume("Go runtime, reflect-free comparison code in this file; the reference model predecessor() sorts a copy of the history's version numbers in descending order and takes the first one below v (independent of the running-maximum list scan in /repo)")
+		r.Assume("Element values are compared on id, version, visible, changeset, user, uid, timestamp (instant and zone), committed, position, tags, way nodes, members (type, ref, role, version, changeset), updates; the expected value comes from this file's own builders, never from the library")
+		r.Assume("Options other than IgnoreMissingChildren have no say in annotate.Change (the property names only the ignore-missing option); of several IgnoreMissingChildren the last one counts (each option is a setter applied in order)")
+		r.Assume("For element ids outside [0, 2^40) an osm.FeatureID cannot hold the id: the id inside NoVisibleChildError is not judged there (counted in outcome_error_id_not_judged), its type is")
+		r.Assume("Not judged because the property text does not decide them: a cancelled or expiring context, options that return an error, blocks carrying changesets/notes/users/bounds, nil elements or a nil change, a datasource answering a list together with an error")
 		r.Assume("Histories contain each version at most once (with duplicates 'the history version with the greatest number below' is ambiguous) and no negative versions")
 		r.Assume("Order of elements of the same kind inside one block is not fixed by the property: compared as a multiset (counted in groups_permuted_within_kind); " +
 			"when several elements lack a predecessor the NoVisibleChildError may name any of them; when missing and failing histories coexist either error is accepted")
@@ -1157,7 +1814,9 @@ func main() {
 		families := []struct {
 			name  string
 			units []unit
-		}{{"single", single}, {"multi-order", multiOrderUnits(r.Pick(2, 3))}, {"multi-status", multiStatusUnits()}, {"same-id", sameIDUnits()}}
+		}{{"single", single}, {"multi-order", multiOrderUnits(r.Pick(2, 3))}, {"multi-status", multiStatusUnits()}, {"same-id", sameIDUnits()},
+			{"wide-version", wideVersionUnits(r.Quick())}, {"wide-id", wideIDUnits()}, {"content", contentUnits(r.Quick())},
+			{"options", optionUnits()}, {"long", longUnits(r.Quick())}, {"sequence", sequenceUnits()}}
 		for _, f := range families {
 			f := f
 			before := r.Evals()
